@@ -10,7 +10,7 @@ use crate::udpdrv::{self, GenParams, UdpCase, UdpOp};
 use crate::vensure;
 use crate::wsdrv::{self, WsCase, WsGen};
 
-pub const RULE: &str = "boundary-time histories on the three storage drivers: one torrent filled to 1 / inline capacity / capacity+1 / 3x capacity members (seeders and leechers) with deadlines a and a+1 seconds ahead, then blocks of clean(dt in {0,1,1,2}) / re-announce / scrape / observe so that cleans land one second before, at and after live deadlines (UDP, HTTP through explicit valid_until and the mock clock; WS through the mock clock with max_peer_age in {2,3,4} and max_offer_age in {1,2,3}, offers answered before and after the clean at their deadline); oracle = models S / W with deadline = sample + age: nothing disappears before the first clean with now >= deadline, it is gone after it, a re-announce re-arms; plus ValidUntil::new / new_with_now / valid against integer arithmetic under the mock clock. non-trivial = some clean at distance <= 1 from a live deadline; distinct = distinct serialised history";
+pub const RULE: &str = "boundary-time histories on the three storage drivers: one torrent filled to 1 / inline capacity / capacity+1 / 3x capacity members (seeders and leechers) with deadlines a and a+1 seconds ahead, then blocks of clean(dt in {0,1,1,2}) / re-announce / scrape / observe so that cleans land one second before, at and after live deadlines (UDP, HTTP through explicit valid_until and the mock clock; WS through the mock clock with max_peer_age in {2,3,4} and max_offer_age in {1,2,3}, offers answered before and after the clean at their deadline); oracle = models S / W with deadline = sample + age: nothing disappears before the first clean with now >= deadline, it is gone after it, a re-announce re-arms; plus ValidUntil::new / new_with_now / valid against integer arithmetic under the mock clock. non-trivial = some clean at distance <= 1 from a live deadline; distinct = distinct serialised history. Sub-check e2e-clock: running trackers (udp mio / io_uring, http, ws; cleaning every second, max_peer_age 15-18 s, thorough up to 35 s) against real time: a peer announced later than max_peer_age after start-up is still reported 3 s after its announce, a peer announced at start-up and the late peers are gone within seconds of announce time + max_peer_age, a re-announced peer outlives its first deadline";
 
 #[derive(Debug, Clone, Serialize, Deserialize)]
 pub struct VuCase {
@@ -229,8 +229,10 @@ fn ws_boundary(max_ops: usize) -> impl Strategy<Value = WsCase> {
 }
 
 pub fn run(ctx: &mut Ctx) {
-    ctx.assume("the UDP/HTTP worker's time sample reaches storage as the explicit valid_until argument (ValidUntil::new checked separately under the mock clock); WS storage and all cleaners read the mock clock");
+    ctx.assume("storage sub-checks: the UDP/HTTP worker's time sample reaches storage as the explicit valid_until argument (ValidUntil::new checked separately under the mock clock); WS storage and all cleaners read the mock clock. That running workers keep the sample current is the `e2e-clock` sub-check (real time, bounds several seconds wide)");
     ctx.assume("now + age stays below u32::MAX (the code documents the u32 limit with an expect)");
+    // against real time, in the background: running workers keep their time sample current
+    let clock = crate::checks::clock::Background::start(crate::checks::clock::peer_clock_cases(ctx.seed, ctx.tier), crate::checks::clock::prop_peer_clock);
     ctx.run_regress::<UdpCase, _>("udp", prop_udp);
     ctx.run_regress::<HttpCase, _>("http", prop_http);
     ctx.run_regress::<WsCase, _>("ws", prop_ws);
@@ -254,6 +256,12 @@ pub fn run(ctx: &mut Ctx) {
     ctx.run_enum("ws-offers-small-scope", crate::checks::c09::small_cases_pub(t.pick(6, 7)), true, crate::checks::c09::prop_small);
     ctx.require_label("ws", "clean-at-offer-deadline", 0.03);
     ctx.require_label("ws", "clean-expired-offer", 0.03);
+    ctx.confirm_runs = 2;
+    ctx.run_regress::<crate::checks::clock::PeerClockCase, _>("e2e-clock", crate::checks::clock::prop_peer_clock);
+    clock.finish(ctx, "e2e-clock", crate::checks::clock::prop_peer_clock);
+    ctx.confirm_runs = 0;
+    ctx.require_label("e2e-clock", "late-peer-kept", 0.7);
+    ctx.require_label("e2e-clock", "late-peer-expired", 0.7);
 }
 
 pub fn replay(path: &str, sub: &str, case: serde_json::Value) -> i32 {
@@ -261,6 +269,7 @@ pub fn replay(path: &str, sub: &str, case: serde_json::Value) -> i32 {
         "udp" => replay_one::<UdpCase, _>("C10", path, case, prop_udp),
         "http" => replay_one::<HttpCase, _>("C10", path, case, prop_http),
         "ws" => replay_one::<WsCase, _>("C10", path, case, prop_ws),
+        "e2e-clock" => replay_one::<crate::checks::clock::PeerClockCase, _>("C10", path, case, crate::checks::clock::prop_peer_clock),
         _ => replay_one::<VuCase, _>("C10", path, case, prop_vu),
     }
 }
